@@ -44,6 +44,15 @@ type batchCase struct {
 	CellBlocks bool `json:"cellblocks,omitempty"`
 	// Snappy: cellblocks are compressed in both directions
 	Snappy bool `json:"snappy,omitempty"`
+	// RegionStop: these regions (index mod count) answer the next multi-request that addresses them with a region-level
+	// RegionServerStoppedException (a connection-level error class to the client); SlowMS: the
+	// results of one multi-response are handed out that many virtual ms apart
+	RegionStop []int `json:"region_stop,omitempty"`
+	// ProbeStop: these regions answer their next request of ANY kind - the region probe included -
+	// with RegionServerStoppedException: connections die while the batch is being grouped or is in
+	// flight (then a call may legitimately be executed twice: only the order / routing oracles apply)
+	ProbeStop []int `json:"probe_stop,omitempty"`
+	SlowMS     int   `json:"slow_ms,omitempty"`
 }
 
 type batchObs struct {
@@ -79,6 +88,16 @@ func batchExec(c batchCase) batchObs {
 		cl.UseCellBlocks = c.CellBlocks
 		for mk, outs := range c.Scripts {
 			cl.Script[mk] = outs
+		}
+		if regs := cl.TableRegions(c.Layout.Table); len(regs) > 0 {
+			for _, ri := range c.RegionStop {
+				r := regs[((ri%len(regs))+len(regs))%len(regs)]
+				r.MultiExc = append(r.MultiExc, sim.Exc{Class: sim.RSStopped, Stack: sim.RSStopped + ": Server is stopping"})
+			}
+			for _, ri := range c.ProbeStop {
+				r := regs[((ri%len(regs))+len(regs))%len(regs)]
+				r.Transient = append(r.Transient, sim.Exc{Class: sim.RSStopped, Stack: sim.RSStopped + ": Server is stopping"})
+			}
 		}
 		if c.DropTableOnNSRE {
 			cl.OnExec = func(e *sim.Exec) {
@@ -140,6 +159,9 @@ func batchExec(c batchCase) batchObs {
 			call, err := buildCall(cctx, table, op, opts...)
 			if err != nil {
 				panic(err)
+			}
+			if c.SlowMS > 0 {
+				call = wrapSlow(call, time.Duration(c.SlowMS)*time.Millisecond)
 			}
 			if c.Invalid == "dup" && i == c.InvalidAt && i > 0 {
 				call = calls[0]
@@ -485,7 +507,7 @@ func c12Run(c batchCase) (out Outcome) {
 			if prev, seen := lastIdx[k]; seen {
 				sameRegion = true
 				if i < prev {
-					return viol("multi-order", "multi request (conn %d call %d) presents call %d before call %d for region %q", e.Conn, e.CallID, prev, i, e.Region)
+					return viol("multi-order", "multi request (conn %d call %d) presents call %d before call %d for region %q; server log: %q", e.Conn, e.CallID, prev, i, e.Region, execHistory(obs.execs))
 				}
 			}
 			lastIdx[k] = i
@@ -496,7 +518,7 @@ func c12Run(c batchCase) (out Outcome) {
 			perRegion[e.Region] = append(perRegion[e.Region], i)
 		}
 	}
-	anyFault := len(c.Scripts) > 0
+	anyFault := len(c.Scripts) > 0 || len(c.RegionStop) > 0 || len(c.ProbeStop) > 0
 	retryable := false
 	for i, op := range c.Batch {
 		r := obs.results[i]
@@ -504,8 +526,11 @@ func c12Run(c batchCase) (out Outcome) {
 		if retryables > 0 {
 			retryable = true
 		}
+		if len(c.ProbeStop) > 0 {
+			continue
+		}
 		if executions[op.Marker] > 1 {
-			return viol("executed-twice", "call %s (index %d) was executed %d times", op.Marker, i, executions[op.Marker])
+			return viol("executed-twice", "call %s (index %d) was executed %d times; server log: %q", op.Marker, i, executions[op.Marker], execHistory(obs.execs))
 		}
 		if len(c.OwnCtx) > 0 {
 			// (a call whose own context ended may be reported failed although it was executed)
@@ -556,7 +581,20 @@ func c12Run(c batchCase) (out Outcome) {
 	return out
 }
 
+func execHistory(execs []sim.Exec) []string {
+	var hist []string
+	for _, x := range execs {
+		if !strings.HasPrefix(x.Region, "hbase:meta") {
+			hist = append(hist, fmt.Sprintf("%v conn%d call%d %s %s@%s attempt%d probe=%v %s", x.T, x.Conn, x.CallID, x.Method, x.Marker, x.Region, x.Attempt, x.Probe, x.Result))
+		}
+	}
+	return hist
+}
+
 func (c batchCase) hasConnLevel() bool {
+	if len(c.RegionStop) > 0 || len(c.ProbeStop) > 0 {
+		return true
+	}
 	for _, outs := range c.Scripts {
 		for _, o := range outs {
 			if o.Kind == "drop" || o.Kind == "reset" {
@@ -582,7 +620,24 @@ func c12Gen(t *rapid.T) batchCase {
 	for i := 0; i < nb; i++ {
 		c.Batch = append(c.Batch, genOp(t, c.Layout, []string{"get", "get", "put", "app", "inc", "del"}, &n))
 	}
-	switch rapid.IntRange(0, 5).Draw(t, "mode") {
+	switch rapid.IntRange(0, 6).Draw(t, "mode") {
+	case 6:
+		// a region reports its server as stopping (connection-level class) while other regions of
+		// the same multi-response succeed, and the results reach the batch some ms apart
+		nr := rapid.IntRange(1, 2).Draw(t, "nstop")
+		for k := 0; k < nr; k++ {
+			c.RegionStop = append(c.RegionStop, rapid.IntRange(0, 4).Draw(t, "stopregion"))
+		}
+		c.SlowMS = rapid.SampledFrom([]int{0, 1, 5}).Draw(t, "slow")
+		if rapid.IntRange(0, 2).Draw(t, "probestop") == 0 {
+			c.ProbeStop, c.RegionStop = c.RegionStop, nil
+			if rapid.Bool().Draw(t, "twice") {
+				c.ProbeStop = append(c.ProbeStop, c.ProbeStop[0])
+			}
+		}
+		if rapid.Bool().Draw(t, "scripts") {
+			c.Scripts = genScripts(t, c.Batch, false)
+		}
 	case 0:
 		c.Invalid = rapid.SampledFrom([]string{"table", "dup", "nonbatchable"}).Draw(t, "invalid")
 		c.InvalidAt = rapid.IntRange(0, len(c.Batch)-1).Draw(t, "invalidat")
@@ -609,7 +664,9 @@ func c12Gen(t *rapid.T) batchCase {
 		c.CancelOwnAtMS = rapid.SampledFrom([]int{25, 30, 60}).Draw(t, "cancelown")
 		c.ReleaseAtMS = c.CancelOwnAtMS + rapid.SampledFrom([]int{1, 10, 100}).Draw(t, "releaseafter")
 	}
-	if rapid.IntRange(0, 3).Draw(t, "other") == 0 {
+	// (with a region reporting its server as stopping, a second batch sharing the connections could have
+	// its multi-request killed in flight after execution: at-least-once, not what this check is about)
+	if len(c.RegionStop) == 0 && len(c.ProbeStop) == 0 && rapid.IntRange(0, 3).Draw(t, "other") == 0 {
 		no := rapid.IntRange(1, 6).Draw(t, "nother")
 		for i := 0; i < no; i++ {
 			c.Other = append(c.Other, genOp(t, c.Layout, []string{"get", "put"}, &n))
@@ -624,7 +681,8 @@ func TestC12_BatchExecution(t *testing.T) {
 		"rapid, virtual time: SendBatch of 1..16 marked calls over 1..5 regions on 1..3 simulated servers; a sixth of "+
 			"the batches are invalid (second table / repeated call object / non-batchable call at a drawn position); "+
 			"others carry per-(call, attempt) scripts of retryable and non-retryable exception classes, requests dropped "+
-			"or connections reset BEFORE execution; optionally a second batch runs concurrently on the same connections. "+
+			"or connections reset BEFORE execution, or a region answering with a region-level RegionServerStoppedException while "+
+			"other regions of the same multi-response succeed and the results are handed out 0/1/5 virtual ms apart; optionally a second batch runs concurrently on the same connections. "+
 			"Oracle on the servers' log: invalid => every result has an error, ok=false and no marker of the batch "+
 			"reached a server; valid => actions in each multi-request/region in batch order, fault-free per-region "+
 			"execution order = batch order, executed at most once, success => executed exactly once, never sent again "+
